@@ -32,6 +32,9 @@ depending on the file (a wider file holds values the narrower type cannot repres
 int64, and the column order differs from file to file.  ``desc['columns'][table]`` lists (name, kind) of every column
 written, ``file_rec['tab'][table]`` the per-file order / formats; ``table_cell`` returns the full value written.
 
+``add_file(desc, spec)`` / ``remove_file(desc, plate, mjd)`` change a tree that was already read (a later MJD is
+delivered, the latest one withdrawn, a file replaced under the same name with other ids): external state is an input.
+
 ``content='spectra'`` stores smooth positive spectra + noise instead (flux), constant inverse
 variance, zero masks: what a pipeline such as template_input needs to run to completion.
 """
@@ -194,8 +197,8 @@ def _table_array(file_rec, table, nper=1):
             dt.append((name, 'S%d' % (STRLEN + (2 if table == 'zall' else 0))))
     a = np.zeros(nrows, dtype=dt)
     for name in order:
-        for r in range(nrows):
-            a[name][r] = values[name][r]
+        if nrows:
+            a[name] = np.array(values[name])
     return a
 
 
@@ -308,50 +311,94 @@ def write_tree(root, plates, run2d='v5_7_0', run1d=None, layout='tree', zbest=Tr
             'columns': {t: [list(c) for c in TABLE_COLUMNS[t] + (VAR_COLUMNS[t] if table_variation is not None else ())]
                         for t in TABLE_COLUMNS}}
     os.makedirs(topdir, exist_ok=True)
-    for n, (plate, mjd, nfiber, npix, c0, c1) in enumerate(plates):
-        plate, mjd, nfiber, npix = int(plate), int(mjd), int(nfiber), int(npix)
-        if content == 'ids' and (nfiber > MAX_FIBRE or npix > MAX_PIX):
-            raise ValueError('nfiber <= %d and npix <= %d required by the id code' % (MAX_FIBRE, MAX_PIX))
-        key = '%d-%d' % (plate, mjd)
-        if key in desc['key']:
-            raise ValueError('duplicate plate-mjd %s' % key)
-        pm = '%04d-%05d' % (plate, mjd)
-        d = flat if layout == 'flat' else os.path.join(topdir, run2d, '%04d' % plate)
-        rec = {'index': file_base + n, 'plate': plate, 'mjd': mjd, 'nfiber': nfiber, 'npix': npix,
-               'coeff0': float(c0), 'coeff1': float(c1), 'dir': d,
-               'spplate': os.path.join(d, 'spPlate-%s.fits' % pm), 'zbest': None, 'zall': None, 'photoplate': None,
-               'tab': _vary_tables(table_variation, n) if table_variation is not None else None}
-        os.makedirs(os.path.join(d, run1d), exist_ok=True)
-        write_spplate(rec['spplate'], rec, content=content, rng=rng)
-        if zbest:
-            rec['zbest'] = os.path.join(d, run1d, 'spZbest-%s.fits' % pm)
-            _write_table_file(rec['zbest'], _table_array(rec, 'zbest'))
-        if zall:
-            rec['zall'] = os.path.join(d, run1d, 'spZall-%s.fits' % pm)
-            _write_table_file(rec['zall'], _table_array(rec, 'zall', nper=int(zall)),
-                              header={'DIMS0': int(zall), 'DIMS1': nfiber})
-        if photoplate == 'plate':
-            rec['photoplate'] = os.path.join(d, 'photoPlate-%s.fits' % pm)
-        elif photoplate == 'match':
-            pd = os.path.join(match, run2d, resolve, '%04d' % plate)
-            os.makedirs(pd, exist_ok=True)
-            rec['photoplate'] = os.path.join(pd, 'photoPlate-%s.fits' % pm)
-        elif photoplate is not None:
-            raise ValueError(photoplate)
-        if rec['photoplate']:
-            _write_table_file(rec['photoplate'], _table_array(rec, 'photoplate'))
-        desc['key'][key] = n
-        desc['latest'][str(plate)] = max(mjd, desc['latest'].get(str(plate), 0))
-        desc['files'].append(rec)
+    desc['file_base'] = int(file_base)
+    desc['resolve_name'] = resolve
+    for spec in plates:
+        add_file(desc, spec, _rng=rng, _platelist=False)
     if platelist:
-        pl = np.zeros(len(desc['files']), dtype=[('PLATE', 'i4'), ('MJD', 'i4'), ('RUN2D', 'S16'), ('RUN1D', 'S16'),
-                                                 ('N_TOTAL', 'i4'), ('STATUS1D', 'S8'), ('RACEN', 'f8'), ('DECCEN', 'f8')])
-        for n, rec in enumerate(desc['files']):
-            pl[n] = (rec['plate'], rec['mjd'], run2d, run1d, rec['nfiber'], 'Done', 10.0 * n, 1.0 * n)
-        fits.HDUList([fits.PrimaryHDU(), fits.BinTableHDU(pl)]).writeto(
-            os.path.join(flat if layout == 'flat' else topdir, 'platelist.fits'), overwrite=True)
+        _write_platelist(desc)
     desc['env'] = env_for(desc)
     return desc
+
+
+def _write_platelist(desc):
+    live = [rec for rec in desc['files'] if not rec.get('removed')]
+    pl = np.zeros(len(live), dtype=[('PLATE', 'i4'), ('MJD', 'i4'), ('RUN2D', 'S16'), ('RUN1D', 'S16'),
+                                    ('N_TOTAL', 'i4'), ('STATUS1D', 'S8'), ('RACEN', 'f8'), ('DECCEN', 'f8')])
+    for n, rec in enumerate(live):
+        pl[n] = (rec['plate'], rec['mjd'], desc['run2d'], desc['run1d'], rec['nfiber'], 'Done', 10.0 * n, 1.0 * n)
+    fits.HDUList([fits.PrimaryHDU(), fits.BinTableHDU(pl)]).writeto(
+        os.path.join(desc['path'] if desc['layout'] == 'flat' else desc['topdir'], 'platelist.fits'), overwrite=True)
+
+
+def add_file(desc, spec, _rng=None, _platelist=True):
+    """Deliver one more plate-MJD (plate, mjd, nfiber, npix, coeff0, coeff1) into an existing tree: spPlate and the
+    optional files the tree has, platelist.fits rewritten.  The file gets the next unused file index (so a file that
+    is removed and written again under the same name holds other ids).  Updates and returns ``desc``'s new record."""
+    plate, mjd, nfiber, npix, c0, c1 = spec
+    plate, mjd, nfiber, npix = int(plate), int(mjd), int(nfiber), int(npix)
+    content, run2d, run1d = desc['content'], desc['run2d'], desc['run1d']
+    n = len(desc['files'])
+    if content == 'ids' and (nfiber > MAX_FIBRE or npix > MAX_PIX):
+        raise ValueError('nfiber <= %d and npix <= %d required by the id code' % (MAX_FIBRE, MAX_PIX))
+    if content == 'ids' and desc['file_base'] + n >= MAX_FILES:
+        raise ValueError('too many files for the id code')
+    key = '%d-%d' % (plate, mjd)
+    if key in desc['key']:
+        raise ValueError('duplicate plate-mjd %s' % key)
+    if _rng is None:
+        _rng = np.random.default_rng((n, plate, mjd))
+    tv = desc.get('table_variation')
+    pm = '%04d-%05d' % (plate, mjd)
+    d = desc['path'] if desc['layout'] == 'flat' else os.path.join(desc['topdir'], run2d, '%04d' % plate)
+    rec = {'index': desc['file_base'] + n, 'plate': plate, 'mjd': mjd, 'nfiber': nfiber, 'npix': npix,
+           'coeff0': float(c0), 'coeff1': float(c1), 'dir': d,
+           'spplate': os.path.join(d, 'spPlate-%s.fits' % pm), 'zbest': None, 'zall': None, 'photoplate': None,
+           'tab': _vary_tables(tv, n) if tv is not None else None}
+    os.makedirs(os.path.join(d, run1d), exist_ok=True)
+    write_spplate(rec['spplate'], rec, content=content, rng=_rng)
+    if desc['has_zbest']:
+        rec['zbest'] = os.path.join(d, run1d, 'spZbest-%s.fits' % pm)
+        _write_table_file(rec['zbest'], _table_array(rec, 'zbest'))
+    if desc['nper']:
+        rec['zall'] = os.path.join(d, run1d, 'spZall-%s.fits' % pm)
+        _write_table_file(rec['zall'], _table_array(rec, 'zall', nper=desc['nper']),
+                          header={'DIMS0': desc['nper'], 'DIMS1': nfiber})
+    if desc['photoplate'] == 'plate':
+        rec['photoplate'] = os.path.join(d, 'photoPlate-%s.fits' % pm)
+    elif desc['photoplate'] == 'match':
+        pd = os.path.join(desc['match'], run2d, desc['resolve_name'], '%04d' % plate)
+        os.makedirs(pd, exist_ok=True)
+        rec['photoplate'] = os.path.join(pd, 'photoPlate-%s.fits' % pm)
+    elif desc['photoplate'] is not None:
+        raise ValueError(desc['photoplate'])
+    if rec['photoplate']:
+        _write_table_file(rec['photoplate'], _table_array(rec, 'photoplate'))
+    desc['key'][key] = n
+    desc['latest'][str(plate)] = max(mjd, desc['latest'].get(str(plate), 0))
+    desc['files'].append(rec)
+    if _platelist and desc['platelist']:
+        _write_platelist(desc)
+    return rec
+
+
+def remove_file(desc, plate, mjd):
+    """Withdraw a plate-MJD from the tree: its spPlate / spZbest / spZall / photoPlate files are deleted, the record
+    stays in ``desc['files']`` marked ``removed`` (file indices are never reused), key / latest / platelist updated."""
+    key = '%d-%d' % (int(plate), int(mjd))
+    rec = desc['files'][desc['key'].pop(key)]
+    for k in ('spplate', 'zbest', 'zall', 'photoplate'):
+        if rec[k] and os.path.exists(rec[k]):
+            os.remove(rec[k])
+    rec['removed'] = True
+    left = [r['mjd'] for r in desc['files'] if r['plate'] == rec['plate'] and not r.get('removed')]
+    if left:
+        desc['latest'][str(rec['plate'])] = max(left)
+    else:
+        desc['latest'].pop(str(rec['plate']), None)
+    if desc['platelist']:
+        _write_platelist(desc)
+    return rec
 
 
 def file_of(desc, plate, mjd):
